@@ -89,6 +89,16 @@ def esc(b):
     return "".join(chr(c) if 0x20 < c < 0x7f and c not in (0x7b, 0x7d) else "{%02X}" % c for c in b) or "{}"
 
 
+def escv(b):
+    """like the drivers: long byte strings are printed as {L<len>:<fnv64>}"""
+    if len(b) > 2048:
+        h = 0xcbf29ce484222325
+        for c in b:
+            h = ((h ^ c) * 0x100000001b3) & 0xffffffffffffffff
+        return "{L%d:%016x}" % (len(b), h)
+    return esc(b)
+
+
 def bin_view(binary, d, toks, timeout=8.0):
     """start the real nun-db binary on a copy of the directory, read every database over TCP, kill it.
     Returns 'START PANIC' or ' db=<name> keys=[k=v@ver,...]' sections in the phase-C dump's notation"""
@@ -149,10 +159,10 @@ def bin_view(binary, d, toks, timeout=8.0):
                 if k.startswith(b"$$") or k == b"$connections":
                     continue
                 out, st = cmd("get-safe " + k.decode("utf-8", "replace"))
-                for l in out:
-                    if l.startswith(b"value-version "):
-                        ver, _, val = l[14:-1].partition(b" ")
-                        items.append("%s=%s@%s" % (esc(k), esc(val), ver.decode()))
+                l = b"".join(out)            # a value may contain line feeds
+                if l.startswith(b"value-version "):
+                    ver, _, val = l[14:-1].partition(b" ")
+                    items.append("%s=%s@%s" % (escv(k), escv(val), ver.decode()))
             parts.append(" db=%s keys=[%s]" % (esc(name.encode()), ",".join(items)))
         return "".join(parts)
     except Exception as e:
